@@ -179,6 +179,13 @@ def stepStore (env : Env) (op : Json) (defaultRank : Nat) : Env × Json :=
       | none => jStr "error")
   | k => (env, jObj [("bad-op", jStr k)])
 
+/-- `SELECT s GLOB p` for a list of (pattern, string) pairs -/
+def opGlob (j : Json) : Json :=
+  jArr ((getArr j "cases").map fun c =>
+    match asList c with
+    | [p, s] => jBool (Glob.globS (asStr p) (asStr s))
+    | _ => Json.null)
+
 def opStore (j : Json) : Json :=
   let table : List (String × String) :=
     match j.getObjVal? "norm" with
